@@ -112,32 +112,38 @@ def sendNftTransfer (s : State) (cls id : Str) (sender receiver : Addr)
       let r := s.core.sendPacket H (nftPacket s cls id full away sender receiver dst relay destContract)
       ({ s with apps := a, core := r.1 }, r.2)
 
+/-- receive, away from origin: (create the voucher class) ; mint to the module ; hand over -/
+def nftRecvAway (s : Apps) (p : Packet) (d : NftData) : Apps × Res :=
+  let newPath := ClassPath.getAway nftPfx p.src.toList p.dst.toList d.cls
+  let sv := nftVoucherClass Hc s newPath
+  let s := sv.1
+  let vc := sv.2
+  let r1 : Apps × Res :=
+    match s.nft.denom vc with
+    | some _ => (s, Res.ok)
+    | none => liftNft s (s.nft.issueDenom vc nftModAddr true)
+  match r1 with
+  | (s, .err e) => (s, .err e)
+  | (s, .ok) =>
+    match liftNft s (s.nft.mint vc d.id d.uri nftModAddr) with
+    | (s, .err e) => (s, .err e)
+    | (s, .ok) => liftNft s (s.nft.transferOwner vc d.id nftModAddr d.receiver)
+
+/-- receive, back towards origin: release from escrow -/
+def nftRecvBack (s : Apps) (d : NftData) : Apps × Res :=
+  if !hasPrefix nftPfx d.cls then (s, .err (.app "NFT/2"))
+  else
+    match ClassPath.getBack d.cls with
+    | none => (s, .err .panic)
+    | some newPath => liftNft s (s.nft.transferOwner (ibcClass Hc newPath) d.id nftModAddr d.receiver)
+
 /-- `Keeper.OnRecvPacket` (NFT); the error is what becomes the error acknowledgement -/
 def nftOnRecv (s : Apps) (p : Packet) (d : NftData) : Apps × Res :=
   if addrBlank d.sender then (s, .err .invalidAddress)
   else if addrBlank d.receiver then (s, .err .invalidAddress)
   else if !addrValid d.receiver then (s, .err .invalidAddress)
-  else if d.away then
-    let newPath := ClassPath.getAway nftPfx p.src.toList p.dst.toList d.cls
-    let (s, vc) := nftVoucherClass Hc s newPath
-    let (s, r) :=
-      match s.nft.denom vc with
-      | some _ => (s, Res.ok)
-      | none => liftNft s (s.nft.issueDenom vc nftModAddr true)
-    match r with
-    | .err e => (s, .err e)
-    | .ok =>
-      match liftNft s (s.nft.mint vc d.id d.uri nftModAddr) with
-      | (s, .err e) => (s, .err e)
-      | (s, .ok) => liftNft s (s.nft.transferOwner vc d.id nftModAddr d.receiver)
-  else
-    if !hasPrefix nftPfx d.cls then (s, .err (.app "NFT/2"))
-    else
-      match ClassPath.getBack d.cls with
-      | none => (s, .err .panic)
-      | some newPath =>
-        let vc := ibcClass Hc newPath
-        liftNft s (s.nft.transferOwner vc d.id nftModAddr d.receiver)
+  else if d.away then nftRecvAway Hc s p d
+  else nftRecvBack Hc s d
 
 /-- `refundPacketToken` (NFT) -/
 def nftRefund (s : Apps) (d : NftData) : Apps × Res :=
@@ -203,32 +209,36 @@ def sendMtTransfer (s : State) (cls id : Str) (sender receiver : Addr)
       let r := s.core.sendPacket H (mtPacket s id full away sender receiver dst relay destContract amount mtData)
       ({ s with apps := a, core := r.1 }, r.2)
 
+def mtRecvAway (s : Apps) (p : Packet) (d : MtData) : Apps × Res :=
+  let newPath := ClassPath.getAway mtPfx p.src.toList p.dst.toList d.cls
+  let sv := mtVoucherClass Hc s newPath
+  let s := sv.1
+  let vc := sv.2
+  let s : Apps := match s.mt.denom vc with
+    | some _ => s
+    | none => { s with mt := s.mt.issueDenom vc mtModAddr }
+  let r : Apps × Res :=
+    if !s.mt.exists_ (vc, d.id) then liftMt s (s.mt.issueMT vc d.id d.amount mtModAddr)
+    else liftMt s (s.mt.mintMT vc d.id d.amount mtModAddr)
+  match r with
+  | (s, .err e) => (s, .err e)
+  | (s, .ok) => liftMt s (s.mt.transferOwner vc d.id d.amount mtModAddr d.receiver)
+
+def mtRecvBack (s : Apps) (d : MtData) : Apps × Res :=
+  if !hasPrefix mtPfx d.cls then (s, .err (.app "MT/2"))
+  else
+    match ClassPath.getBack d.cls with
+    | none => (s, .err .panic)
+    | some newPath => liftMt s (s.mt.transferOwner (ibcClass Hc newPath) d.id d.amount mtModAddr d.receiver)
+
 /-- `Keeper.OnRecvPacket` (MT) -/
 def mtOnRecv (s : Apps) (p : Packet) (d : MtData) : Apps × Res :=
   if addrBlank d.sender then (s, .err .invalidAddress)
   else if addrBlank d.receiver then (s, .err .invalidAddress)
   else if d.amount == 0 then (s, .err (.app "MT/6"))
   else if !addrValid d.receiver then (s, .err .invalidAddress)
-  else if d.away then
-    let newPath := ClassPath.getAway mtPfx p.src.toList p.dst.toList d.cls
-    let (s, vc) := mtVoucherClass Hc s newPath
-    let s := match s.mt.denom vc with
-      | some _ => s
-      | none => { s with mt := s.mt.issueDenom vc mtModAddr }
-    let (s, r) :=
-      if !s.mt.exists_ (vc, d.id) then liftMt s (s.mt.issueMT vc d.id d.amount mtModAddr)
-      else liftMt s (s.mt.mintMT vc d.id d.amount mtModAddr)
-    match r with
-    | .err e => (s, .err e)
-    | .ok => liftMt s (s.mt.transferOwner vc d.id d.amount mtModAddr d.receiver)
-  else
-    if !hasPrefix mtPfx d.cls then (s, .err (.app "MT/2"))
-    else
-      match ClassPath.getBack d.cls with
-      | none => (s, .err .panic)
-      | some newPath =>
-        let vc := ibcClass Hc newPath
-        liftMt s (s.mt.transferOwner vc d.id d.amount mtModAddr d.receiver)
+  else if d.away then mtRecvAway Hc s p d
+  else mtRecvBack Hc s d
 
 /-- `refundPacketToken` (MT) -/
 def mtRefund (s : Apps) (d : MtData) : Apps × Res :=
